@@ -7,14 +7,19 @@
     durability against process death is the hypothesis of this model, see
     Properties/C07.v); on restart the file is reopened by
 
-      internal/db/db_manager.go   DBManager.GetUserDB   (file exists => initUserDB is SKIPPED)
+      internal/db/db_manager.go   DBManager.GetUserDB   (initUserDB runs at EVERY first use of a
+                                  store in a process; all its statements are idempotent — repaired code,
+                                  fixes/store-init-idempotent.patch; before, it was skipped when the file existed)
 
     The operations, in the statement order of the Go code:
 
       COpen       db_manager.go GetUserDB + initUserDB (10 CREATE TABLE, 16 CREATE
-                  INDEX, all IF NOT EXISTS) + sqlite.go createDefaultMailboxes
-                  (5 x CreateMailboxPerUser) — each statement autocommit
-      CDeliver    delivery/storage/storage.go DeliverMessage: GetUserDB,
+                  INDEX, all IF NOT EXISTS, each autocommit) + sqlite.go
+                  createDefaultMailboxes (SELECT COUNT; only if the table is
+                  empty: ONE transaction with the 5 INSERTs).  It is the first
+                  use of the store in a process: a LOGIN, or the GetUserDB at the
+                  head of the first delivery to that user.
+      CDeliver    delivery/storage/storage.go DeliverMessage after GetUserDB:
                   get-or-create mailbox, parser.StoreMessagePerUserWithSharedDBAndS3
                   (INSERT messages; n x INSERT message_headers; INSERT addresses;
                   per part [blob in shared.db] INSERT message_parts),
@@ -22,11 +27,11 @@
                   INSERT message_mailbox), RecordDeliveryPerUser
       CAppend     server/message/message.go HandleAppendWithReader (same, no delivery row)
       CBase o     the operations of Model/Ops.v that do not store a message:
-                  UID COPY / COPY / move = one transaction; UID STORE = one UPDATE
+                  UID COPY / COPY / move = one transaction (incl. the uid_next write-back, raven 02d2f67); UID STORE = one UPDATE
                   (or one move transaction) per message; EXPUNGE / CLOSE = one
                   DELETE per message; CREATE = one INSERT per missing parent + one;
                   DELETE = one transaction; RENAME = parent INSERTs + one
-                  transaction; RENAME INBOX = INSERT + UPDATE (two statements)
+                  transaction; RENAME INBOX = INSERT, then one transaction (uid_next + re-parent, raven 30e4be8)
       CSubscribe / CUnsubscribe   user_schema.go SubscribeToMailboxPerUser / Unsubscribe...
 
     The mailbox / link tables are the [store] of Model/Store.v (shared with
@@ -34,9 +39,9 @@
     committed so far, the rows of [messages] with the number of their header /
     address / part rows, subscriptions and delivery records.
 
-    A store whose essential tables are missing ([ready] = false) is modelled
-    only as far as the property needs: it stays that way (no code path re-runs
-    the schema) and every operation on it fails without inserting a link.
+    Operations other than [COpen] on a store whose essential tables are missing
+    ([ready] = false) do nothing and fail (in raven they are preceded by the
+    [COpen] of their session / delivery, which completes the store).
 
     No proofs in this file. *)
 From Coq Require Import String Ascii List Bool ZArith Arith.
@@ -87,6 +92,7 @@ Inductive mstep :=
 | MCreateFile                                   (* sql.Open + PRAGMA foreign_keys: an empty file appears *)
 | MSchema (i : nat)                             (* the i-th (0-based) CREATE ... IF NOT EXISTS *)
 | MInsMailbox (name : str) (t : Z)              (* INSERT INTO mailboxes *)
+| MTxDefaults (t1 t2 t3 t4 t5 : Z)              (* BEGIN; 5 x INSERT INTO mailboxes; COMMIT — only issued when the table is empty *)
 | MInsMessage (want : shape)                    (* INSERT INTO messages *)
 | MInsHeader (msg : Z)                          (* INSERT INTO message_headers *)
 | MInsAddress (msg : Z)                         (* INSERT INTO addresses *)
@@ -101,7 +107,7 @@ Inductive mstep :=
 | MDelLink (id : Z)                             (* DELETE FROM message_mailbox WHERE id = ? *)
 | MTxDelete (mb : Z)                            (* BEGIN; DELETE message_mailbox; DELETE mailboxes; COMMIT *)
 | MTxRename (mb : Z) (old new : str)            (* BEGIN; UPDATE mailboxes SET name *; COMMIT *)
-| MReparent (old new : Z)                       (* UPDATE message_mailbox SET mailbox_id *)
+| MTxReparent (old new nx : Z)                  (* BEGIN; UPDATE mailboxes SET uid_next; UPDATE message_mailbox SET mailbox_id; COMMIT *)
 | MSubscribe (name : str)                       (* INSERT OR IGNORE INTO subscriptions *)
 | MUnsubscribe (name : str).                    (* DELETE FROM subscriptions *)
 
@@ -114,6 +120,12 @@ Definition add_part (m : msgrec) := mkMsg (m_id m) (m_hdr m) (m_adr m) (S (m_par
 Definition opt_st (d : dstore) (o : option store) : dstore :=
   match o with Some s => with_st d s | None => d end.
 
+(** createDefaultMailboxes on an empty table *)
+Definition default_rows (s : store) (t1 t2 t3 t4 t5 : Z) : store :=
+  fold_left (fun s' nt => match create_mailbox_row s' (fst nt) (snd nt) with
+                          | Some (s'', _) => s'' | None => s' end)
+            [(INBOX, t1); (S_ "Sent", t2); (S_ "Drafts", t3); (S_ "Trash", t4); (SPAM, t5)] s.
+
 (** a statement that fails (constraint, missing table) changes nothing *)
 Definition exec (d : dstore) (st : mstep) : dstore :=
   match st with
@@ -124,6 +136,13 @@ Definition exec (d : dstore) (st : mstep) : dstore :=
   | MInsMailbox n t =>
       if d_file d && (1 <=? d_schema d)%nat
       then opt_st d (option_map fst (create_mailbox_row (d_st d) n t)) else d
+  | MTxDefaults t1 t2 t3 t4 t5 =>
+      if d_file d && (1 <=? d_schema d)%nat
+      then match mboxes (d_st d) with
+           | [] => with_st d (default_rows (d_st d) t1 t2 t3 t4 t5)
+           | _ => d
+           end
+      else d
   | MInsMessage sh =>
       let '(s', id) := store_message (d_st d) in
       mkD (d_file d) (d_schema d) s' (d_msgs d ++ [mkMsg id 0 0 0 sh]) (d_subs d) (d_deliv d)
@@ -142,7 +161,7 @@ Definition exec (d : dstore) (st : mstep) : dstore :=
       let s1 := delete_links (d_st d) (in_mbox mb) in
       with_st d (set_mboxes s1 (filter (fun m' => negb (mb_id m' =? mb)) (mboxes s1)))
   | MTxRename mb old new => opt_st d (rename_tx (d_st d) mb old new)
-  | MReparent old new => opt_st d (reparent (d_st d) old new)
+  | MTxReparent old new nx => opt_st d (reparent (set_next (d_st d) new nx) old new)
   | MSubscribe n =>
       if existsb (str_eqb n) (d_subs d) then d
       else mkD (d_file d) (d_schema d) (d_st d) (d_msgs d) (d_subs d ++ [n]) (d_deliv d)
@@ -157,7 +176,7 @@ Definition run_steps (d : dstore) (l : list mstep) : dstore := fold_left exec l 
 
 Inductive cop :=
 | COpen (t1 t2 t3 t4 t5 : Z)           (* first use of the store in a process; clock readings of the 5 defaults *)
-| CDeliver (folder : str) (t : Z) (sh : shape) (t1 t2 t3 t4 t5 : Z)
+| CDeliver (folder : str) (t : Z) (sh : shape)
 | CAppend (folder : str) (flags : list str) (sh : shape)
 | CBase (o : op)                        (* an operation of Model/Ops.v other than ODeliver / OAppend *)
 | CSubscribe (name : str)
@@ -165,12 +184,18 @@ Inductive cop :=
 
 Definition DEFAULTS : list str := [INBOX; S_ "Sent"; S_ "Drafts"; S_ "Trash"; SPAM].
 
-(** GetUserDB: nothing if the file exists — whatever it contains *)
+(** the state GetUserDB starts from: the file as it is, or a new empty one *)
+Definition fresh : dstore := mkD true 0 empty_store [] [] 0.
+Definition file_of (d : dstore) : dstore := if d_file d then d else fresh.
+
+(** GetUserDB: (create the file,) ALL 26 schema statements (no-ops where the
+    object exists), and the default mailboxes if the table is empty *)
 Definition open_steps (d : dstore) (t1 t2 t3 t4 t5 : Z) : list mstep :=
-  if d_file d then []
-  else MCreateFile :: map MSchema (seq 0 NSCHEMA)
-       ++ [MInsMailbox INBOX t1; MInsMailbox (S_ "Sent") t2; MInsMailbox (S_ "Drafts") t3;
-           MInsMailbox (S_ "Trash") t4; MInsMailbox SPAM t5].
+  (if d_file d then [] else [MCreateFile]) ++ map MSchema (seq 0 NSCHEMA)
+  ++ match mboxes (d_st (file_of d)) with
+     | [] => [MTxDefaults t1 t2 t3 t4 t5]
+     | _ => []
+     end.
 
 (** StoreMessagePerUserWithSharedDBAndS3 for the message that gets row id [id] *)
 Definition msg_steps (id : Z) (sh : shape) : list mstep :=
@@ -233,7 +258,7 @@ Definition after_parents (s : store) (ps : list str) (t : Z) : store :=
                                    | Some (s'', _) => s'' | None => s' end
                          end) ps s.
 
-(** EXPUNGE: "SELECT id, uid ... flags LIKE '%\Deleted%' ORDER BY uid", then one DELETE per row id *)
+(** EXPUNGE: "SELECT id, uid ... instr(' '||flags||' ', ' \Deleted ') ORDER BY uid", then one DELETE per row id *)
 Definition expunge_ids (s : store) (sel : Z) : list Z :=
   map lk_id (filter is_deleted (links_sorted s sel)).
 
@@ -245,7 +270,7 @@ Definition base_steps (s : store) (o : op) : list mstep :=
       | [] => []
       | uids => match find_name s dest with
                 | None => []
-                | Some d => [MTxUidCopy sel (mb_id d) uids (max_uid s (mb_id d) + 1)]
+                | Some d => [MTxUidCopy sel (mb_id d) uids (mb_next d)]
                 end
       end
   | OCopy sel set dest =>
@@ -253,7 +278,7 @@ Definition base_steps (s : store) (o : op) : list mstep :=
       | [] => []
       | seqs => match find_name s dest with
                 | None => []
-                | Some d => [MTxCopy sel (mb_id d) seqs (max_uid s (mb_id d) + 1)]
+                | Some d => [MTxCopy sel (mb_id d) seqs (mb_next d)]
                 end
       end
   | OUidStore sel set mode new => map (MStoreOne sel mode new) (resolve_uids s sel set)
@@ -302,7 +327,7 @@ Definition base_steps (s : store) (o : op) : list mstep :=
             | Some ib =>
               match create_mailbox_row s new t with
               | None => []
-              | Some (_, nid) => [MInsMailbox new t; MReparent (mb_id ib) nid]
+              | Some (_, nid) => [MInsMailbox new t; MTxReparent (mb_id ib) nid (mb_next ib)]
               end
             end
           end
@@ -324,10 +349,7 @@ Definition base_steps (s : store) (o : op) : list mstep :=
 Definition micro (d : dstore) (o : cop) : list mstep :=
   match o with
   | COpen t1 t2 t3 t4 t5 => open_steps d t1 t2 t3 t4 t5
-  | CDeliver f t sh t1 t2 t3 t4 t5 =>
-      let pre := open_steps d t1 t2 t3 t4 t5 in
-      let d0 := run_steps d pre in
-      pre ++ (if ready d0 then deliver_steps (d_st d0) f t sh else [])
+  | CDeliver f t sh => if ready d then deliver_steps (d_st d) f t sh else []
   | CAppend f fl sh => if ready d then append_steps (d_st d) f fl sh else []
   | CBase o' => if ready d then base_steps (d_st d) o' else []
   | CSubscribe n => if ready d then [MSubscribe n] else []
@@ -341,7 +363,13 @@ Definition done_msg (id : Z) (sh : shape) : msgrec :=
 
 (** the store after GetUserDB ran to completion *)
 Definition opened (d : dstore) (t1 t2 t3 t4 t5 : Z) : dstore :=
-  if d_file d then d else mkD true NSCHEMA (init5 t1 t2 t3 t4 t5) [] [] 0.
+  let d' := file_of d in
+  mkD true (Nat.max NSCHEMA (d_schema d'))
+      (match mboxes (d_st d') with
+       | [] => default_rows (d_st d') t1 t2 t3 t4 t5
+       | _ => d_st d'
+       end)
+      (d_msgs d') (d_subs d') (d_deliv d').
 
 Definition base_ok (o : op) : bool :=
   match o with ODeliver _ _ | OAppend _ _ => false | _ => true end.
@@ -351,16 +379,15 @@ Definition base_ok (o : op) : bool :=
 Definition big (d : dstore) (o : cop) : dstore * result :=
   match o with
   | COpen t1 t2 t3 t4 t5 => (opened d t1 t2 t3 t4 t5, ROk)
-  | CDeliver f t sh t1 t2 t3 t4 t5 =>
-      let d0 := opened d t1 t2 t3 t4 t5 in
-      if ready d0 then
-        let '(s', r) := op_deliver (d_st d0) f t in
-        let stored := negb (next_msg s' =? next_msg (d_st d0)) in
-        (mkD (d_file d0) (d_schema d0) s'
-             (if stored then d_msgs d0 ++ [done_msg (next_msg (d_st d0)) sh] else d_msgs d0)
-             (d_subs d0)
-             (match r with ROk => S (d_deliv d0) | _ => d_deliv d0 end), r)
-      else (d0, RNo)
+  | CDeliver f t sh =>
+      if ready d then
+        let '(s', r) := op_deliver (d_st d) f t in
+        let stored := negb (next_msg s' =? next_msg (d_st d)) in
+        (mkD (d_file d) (d_schema d) s'
+             (if stored then d_msgs d ++ [done_msg (next_msg (d_st d)) sh] else d_msgs d)
+             (d_subs d)
+             (match r with ROk => S (d_deliv d) | _ => d_deliv d end), r)
+      else (d, RNo)
   | CAppend f fl sh =>
       if ready d then
         let '(s', r) := op_append (d_st d) f fl in
@@ -395,7 +422,7 @@ Definition crash_at (d : dstore) (h : list cop) (k : nat) : dstore :=
   run_steps d (firstn k (all_steps d h)).
 
 (** restart: the process state (connection cache) is gone, the file is what it
-    is; the next operation starts with GetUserDB *)
+    is; the next session / delivery starts with GetUserDB ([COpen]) *)
 Definition recover_and (d : dstore) (o : cop) : dstore * result := big d o.
 
 (** ---- SQL labels of the micro-steps (for the statement-trace tie) ---------------- *)
@@ -420,7 +447,7 @@ Definition L_INS_LINK := S_ "I message_mailbox".
 (** labels of the INSERTs of the copy loops, up to the first failing one *)
 Fixpoint uidcopy_labels (s : store) (sel dest : Z) (uids : list Z) (next : Z) : list str :=
   match uids with
-  | [] => []
+  | [] => [S_ "U mailboxes"]
   | u :: r =>
     match find_link s sel u with
     | None => uidcopy_labels s sel dest r next
@@ -429,6 +456,21 @@ Fixpoint uidcopy_labels (s : store) (sel dest : Z) (uids : list Z) (next : Z) : 
       match insert_link s (lk_msg l) dest next (add_recent (lk_flags l)) with
       | None => []
       | Some s' => uidcopy_labels s' sel dest r (next + 1)
+      end
+    end
+  end.
+
+Fixpoint copy_labels (s : store) (sel dest : Z) (seqs : list Z) (next : Z) : list str :=
+  match seqs with
+  | [] => [S_ "U mailboxes"]
+  | n :: r =>
+    match nth_error (links_sorted s sel) (Z.to_nat (n - 1)) with
+    | None => []
+    | Some l =>
+      L_INS_LINK ::
+      match insert_link s (lk_msg l) dest next (add_recent (lk_flags l)) with
+      | None => []
+      | Some s' => copy_labels s' sel dest r (next + 1)
       end
     end
   end.
@@ -444,6 +486,7 @@ Definition labels (d : dstore) (st : mstep) : list str :=
   | MCreateFile => []
   | MSchema i => [nth i SCHEMA_OBJS []]
   | MInsMailbox _ _ => [S_ "I mailboxes"]
+  | MTxDefaults _ _ _ _ _ => L_BEGIN :: repeat (S_ "I mailboxes") 5 ++ [L_COMMIT]
   | MInsMessage _ => [S_ "I messages"]
   | MInsHeader _ => [S_ "I message_headers"]
   | MInsAddress _ => [S_ "I addresses"]
@@ -455,7 +498,7 @@ Definition labels (d : dstore) (st : mstep) : list str :=
   | MTxUidCopy sel dest uids next =>
       L_BEGIN :: uidcopy_labels s sel dest uids next ++ tx_end (is_some (uidcopy_loop s sel dest uids next))
   | MTxCopy sel dest seqs next =>
-      L_BEGIN :: repeat L_INS_LINK (length seqs) ++ tx_end (is_some (copy_loop s sel dest seqs next))
+      L_BEGIN :: copy_labels s sel dest seqs next ++ tx_end (is_some (copy_loop s sel dest seqs next))
   | MStoreOne sel mode new u =>
       match find_link s sel u with
       | None => []
@@ -466,9 +509,9 @@ Definition labels (d : dstore) (st : mstep) : list str :=
           match find_name s destname with
           | None => [S_ "U message_mailbox"]
           | Some dm =>
-            if mb_id dm =? sel then []
-            else match insert_link s (lk_msg l) (mb_id dm) (max_uid s (mb_id dm) + 1) [] with
-                 | Some _ => [L_BEGIN; L_INS_LINK; S_ "D message_mailbox"; L_COMMIT]
+            if mb_id dm =? sel then [S_ "U message_mailbox"]
+            else match insert_link s (lk_msg l) (mb_id dm) (mb_next dm) [] with
+                 | Some _ => [L_BEGIN; L_INS_LINK; S_ "U mailboxes"; S_ "D message_mailbox"; L_COMMIT]
                  | None => [L_BEGIN; L_INS_LINK; L_ROLLBACK; S_ "U message_mailbox"]
                  end
           end in
@@ -485,7 +528,8 @@ Definition labels (d : dstore) (st : mstep) : list str :=
           L_BEGIN :: S_ "U mailboxes" :: repeat (S_ "U mailboxes") (length (children s1 old))
           ++ tx_end (is_some (rename_tx s mb old new))
       end
-  | MReparent _ _ => [S_ "U message_mailbox"]
+  | MTxReparent old new nx =>
+      [L_BEGIN; S_ "U mailboxes"; S_ "U message_mailbox"] ++ tx_end (is_some (reparent (set_next s new nx) old new))
   | MSubscribe _ => [S_ "I subscriptions"]
   | MUnsubscribe _ => [S_ "D subscriptions"]
   end.
